@@ -1088,6 +1088,48 @@ def vAttr (c : WCfg) (a : Attr) : Bytes × Bytes :=
 def vAttrs (c : WCfg) (attrs : List Attr) : List (Bytes × Bytes) :=
   if c.lang.attrs.isSome then attrs.map (vAttr c) else []
 
+/-- **The `AName` a reader gives the attribute start written** — representation included: the token
+    name of the FIRST row with the page and token of `current_attr` (`startRow`), or the literal
+    with the attribute's own name when the start was written as a literal. -/
+def exactAName (l : Lang) (cur : Option AttrRow) (nm : Bytes) : AName :=
+  match cur with
+  | some r =>
+    match l.attrs with
+    | some attrs =>
+      match decAttr attrs r.page r.token with
+      | some d => .token d
+      | none => .literal nm
+    | none => .literal nm
+  | none => .literal nm
+
+/-- The attribute a reader reports, as a function of the source attribute alone: exact name
+    (`exactAName` of `startRow`), value `vAttrValue` with the handlers' trailing NUL. -/
+def xAttr (c : WCfg) (a : Attr) : Attr :=
+  { name := exactAName c.lang (startRow c a) a.name.cName,
+    value := withNul (vAttrValue c (startRow c a) (cstrOf a.value)) }
+
+def xAttrs (c : WCfg) (attrs : List Attr) : List Attr :=
+  if c.lang.attrs.isSome then attrs.map (xAttr c) else []
+
+/-- The reader's `AName` for an attribute start IS `exactAName` of `current_attr`. -/
+theorem astartOk_exact (c : WCfg) (tbl) (ap : Nat) (nm) (as : AStart) (cur) (h : AStartOk c tbl ap nm as cur)
+    (ctx : Ctx) (hr : RdT c tbl ctx) (hnf : nulFree nm = true) :
+    (astartName ctx ap as).1 = exactAName c.lang cur nm := by
+  cases h with
+  | lit off ho =>
+    obtain ⟨e, he, rfl, rfl⟩ := ho
+    simp only [astartName, exactAName]
+    exact congrArg AName.literal (hr.res e he hnf)
+  | tok attrs r ha hrm hn =>
+    have hrange := attrRange r (langOk_attrs hr.ok ha hrm).1
+    obtain ⟨r', hf, hm, ht, hp⟩ := attrRow_found' c ctx hr.lang attrs ha r hrm hrange.2 ap
+    have hf' : attrRow ctx r.page r.token = some r' := by
+      rw [swPage_swFor, Nat.mod_eq_of_lt hrange.2] at hf; exact hf
+    have ha' : ctx.lang.attrs = some attrs := by rw [hr.lang]; exact ha
+    have hd : decAttr attrs r.page r.token = some r' := by
+      simp only [attrRow, ha'] at hf'; exact hf'
+    simp only [astartName, hf, exactAName, ha, hd]
+
 theorem iconRow_id (id : Nat) (r : AttrRow) (h : iconRow id r = true) : (id == 1901) = true := by
   simp only [iconRow, Bool.and_eq_true] at h; exact h.1.1
 
@@ -1140,7 +1182,9 @@ theorem encAttrW_spec' (c : WCfg) (na : Option (List Attr)) (a : Attr) (st st' :
     (ha : attrOver c.lang a = true) (attrs : List AttrRow) (hattrs : c.lang.attrs = some attrs)
     (h : encAttrW c na a st = .ok st') : ∃ sa, AttrRes c na a.name.cName (cstrOf a.value) st st' sa ∧
       (∀ ctx : Ctx, RdT c st'.strtbl ctx → (c.lang.id == 1901) = false →
-        attrView (evAttr ctx st.attrPage sa).1 = vAttr c a) := by
+        attrView (evAttr ctx st.attrPage sa).1 = vAttr c a) ∧
+      (∀ ctx : Ctx, RdT c st'.strtbl ctx → (c.lang.id == 1901) = false →
+        (evAttr ctx st.attrPage sa).1 = xAttr c a) := by
   unfold encAttrW at h
   rw [hattrs] at h
   simp only at h
@@ -1297,7 +1341,20 @@ theorem encAttrW_spec' (c : WCfg) (na : Option (List Attr)) (a : Attr) (st st' :
             rw [hnm, hraw]
             simp only [astartName, hf, attrValueText, hisdt, hd0, Bool.and_false, Bool.false_eq_true, ↓reduceIte,
               Option.getD_some]
-    refine ⟨⟨as, vals⟩, ⟨?_, ?_, ?_, ?_, ?_, hwf0, ?_, fun hu => hvr.noopq hu, ?_, ?_⟩, hviewT⟩
+    have hexact : ∀ ctx : Ctx, RdT c st2.strtbl ctx → (c.lang.id == 1901) = false →
+        (evAttr ctx st.attrPage ⟨as, vals⟩).1 = xAttr c a := by
+      intro ctx hr hno
+      have hr1 : RdT c st1.strtbl ctx := hr.of_eq hvr.tbl.symm
+      have hnf := attrOver_nulFree c a attrs hattrs ha hr.an
+      have hn := astartOk_exact c _ _ _ _ _ hres.ok ctx hr1 hnf
+      rw [hcurS] at hn
+      have hname : (evAttr ctx st.attrPage ⟨as, vals⟩).1.name = exactAName c.lang (startRow c a) a.name.cName := hn
+      have hval : (evAttr ctx st.attrPage ⟨as, vals⟩).1.value =
+          withNul (vAttrValue c (startRow c a) (cstrOf a.value)) := congrArg Prod.snd (hviewT ctx hr hno)
+      calc (evAttr ctx st.attrPage ⟨as, vals⟩).1
+          = ⟨(evAttr ctx st.attrPage ⟨as, vals⟩).1.name, (evAttr ctx st.attrPage ⟨as, vals⟩).1.value⟩ := rfl
+        _ = xAttr c a := by rw [hname, hval]; rfl
+    refine ⟨⟨as, vals⟩, ⟨?_, ?_, ?_, ?_, ?_, hwf0, ?_, fun hu => hvr.noopq hu, ?_, ?_⟩, hviewT, hexact⟩
     · show st2.out = _
       rw [hvr.out, hres.out, serAttr, List.append_assoc]
     · intro ctx
@@ -1373,7 +1430,9 @@ theorem encAttrsW_spec' (c : WCfg) (na : Option (List Attr)) (attrs : List AttrR
     ∀ (l : List Attr) (st st' : WSt), l.all (attrOver c.lang) = true → encAttrsW c na l st = .ok st' →
       ∃ as, as.length = l.length ∧ AttrsRes c na l st st' as ∧
         (∀ ctx : Ctx, RdT c st'.strtbl ctx → (c.lang.id == 1901) = false →
-          (evAttrs ctx st.attrPage as).1.map attrView = l.map (vAttr c)) := by
+          (evAttrs ctx st.attrPage as).1.map attrView = l.map (vAttr c)) ∧
+        (∀ ctx : Ctx, RdT c st'.strtbl ctx → (c.lang.id == 1901) = false →
+          (evAttrs ctx st.attrPage as).1 = l.map (xAttr c)) := by
   intro l
   induction l with
   | nil =>
@@ -1382,7 +1441,7 @@ theorem encAttrsW_spec' (c : WCfg) (na : Option (List Attr)) (attrs : List AttrR
     have h' : (Except.ok st : Except Err WSt) = .ok st' := h
     injection h' with h'; subst h'
     exact ⟨[], rfl, ⟨by simp [serAttrs], fun _ => rfl, rfl, TblExt.refl _ _, (by intro o ho; cases ho), fun _ _ _ _ => rfl,
-      fun _ => rfl, fun _ _ => rfl, fun _ _ _ _ _ _ => rfl⟩, fun _ _ _ => rfl⟩
+      fun _ => rfl, fun _ _ => rfl, fun _ _ _ _ _ _ => rfl⟩, fun _ _ _ => rfl, fun _ _ _ => rfl⟩
   | cons a rest ih =>
     intro st st' hall h
     simp only [List.all_cons, Bool.and_eq_true] at hall
@@ -1395,8 +1454,17 @@ theorem encAttrsW_spec' (c : WCfg) (na : Option (List Attr)) (attrs : List AttrR
       have h' : (encAttrW c na a st >>= fun st => encAttrsW c na rest st) = .ok st' := h
       rw [h1] at h'
       have h2 : encAttrsW c na rest st1 = .ok st' := h'
-      obtain ⟨sa, hsa, hsaT⟩ := encAttrW_spec' c na a st st1 hall.1 attrs hattrs h1
-      obtain ⟨as, hlen, has, hasT⟩ := ih st1 st' hall.2 h2
+      obtain ⟨sa, hsa, hsaT, hsaX⟩ := encAttrW_spec' c na a st st1 hall.1 attrs hattrs h1
+      obtain ⟨as, hlen, has, hasT, hasX⟩ := ih st1 st' hall.2 h2
+      have hX : ∀ ctx : Ctx, RdT c st'.strtbl ctx → (c.lang.id == 1901) = false →
+          (evAttrs ctx st.attrPage (sa :: as)).1 = (a :: rest).map (xAttr c) := by
+        intro ctx hr hno
+        have hv := hsaX ctx (hr.mono has.tbl.pre) hno
+        have hrest := hasX ctx hr hno
+        rw [hsa.ap ctx] at hrest
+        show (evAttr ctx st.attrPage sa).1 :: (evAttrs ctx (evAttr ctx st.attrPage sa).2 as).1 = _
+        rw [hv, hrest]
+        rfl
       have hT : ∀ ctx : Ctx, RdT c st'.strtbl ctx → (c.lang.id == 1901) = false →
           (evAttrs ctx st.attrPage (sa :: as)).1.map attrView = (a :: rest).map (vAttr c) := by
         intro ctx hr hno
@@ -1407,7 +1475,7 @@ theorem encAttrsW_spec' (c : WCfg) (na : Option (List Attr)) (attrs : List AttrR
         rw [hv, hrest]
         rfl
       refine ⟨sa :: as, by simp [hlen], ⟨?_, ?_, ?_, hsa.tbl.trans has.tbl, ?_, ?_,
-        fun hu => by simp only [opqsAttrs, hsa.noopq hu, has.noopq hu, List.append_nil], ?_, ?_⟩, hT⟩
+        fun hu => by simp only [opqsAttrs, hsa.noopq hu, has.noopq hu, List.append_nil], ?_, ?_⟩, hT, hX⟩
       · rw [has.out, hsa.out, serAttrs, List.append_assoc]
       · intro ctx; rw [evAttrs_cons_page, has.ap ctx, hsa.ap ctx]
       · rw [has.tp, hsa.tp]
@@ -1615,6 +1683,69 @@ theorem tagLink_name (c : WCfg) (name : Name) (st : WSt) (tbl) (sw tag)
     rw [← hstr]
     exact hres e he (by rw [hstr]; exact hnf)
 
+/-- **The `Name` a reader gives the tag written for a node** — representation included: the token
+    name of the FIRST row with the page and token of the row `wbxml_encode_tag` found (C08's
+    `decTag`: the row itself, except for the second of two rows sharing a token), or the literal
+    with the node's own name when no row was found. `nameView` is its XML name. -/
+def exactName (l : Lang) (found : Option TagRow) (nm : Bytes) : Name :=
+  match found with
+  | some r =>
+    match l.tags with
+    | some tags =>
+      match decTag tags r.page r.token with
+      | some d => .token d
+      | none => .literal nm
+    | none => .literal nm
+  | none => .literal nm
+
+theorem exactName_xmlName (l : Lang) (found : Option TagRow) (nm : Bytes) :
+    (exactName l found nm).xmlName = nameView l found nm := by
+  unfold exactName nameView
+  cases found with
+  | none => rfl
+  | some r =>
+    cases l.tags with
+    | none => rfl
+    | some tags =>
+      simp only
+      cases decTag tags r.page r.token <;> rfl
+
+/-- `tagLink_name` with the representation: the reader's `Name` for the tag written IS
+    `exactName`. -/
+theorem tagLink_exact (c : WCfg) (name : Name) (st : WSt) (tbl) (sw tag)
+    (hok : TagOk c tbl st.tagPage name.cName sw tag) (hlink : TagLink c name st sw tag)
+    (hn : nameOver c.lang name = true) (ctx : Ctx) (hlang : ctx.lang = c.lang) (hl : langOk c.lang = true)
+    (hres : Resolves ctx.tbl tbl) :
+    (tagName ctx (swPage sw st.tagPage) tag).1 = exactName c.lang (foundOf c name st) name.cName := by
+  unfold TagLink at hlink
+  cases hf : foundOf c name st with
+  | some r =>
+    rw [hf] at hlink
+    obtain ⟨rfl, rfl⟩ := hlink
+    obtain ⟨tags, ht, hm⟩ := foundOf_mem c name st hn r hf
+    have hrange := tagRange r (langOk_tags hl ht hm)
+    rw [swPage_swFor, Nat.mod_eq_of_lt hrange.2.2]
+    have ht' : ctx.lang.tags = some tags := by rw [hlang]; exact ht
+    simp only [tagName, tagRow, ht', exactName, ht]
+    have : List.find? (fun x => x.token == r.token && x.page == r.page) tags = decTag tags r.page r.token := rfl
+    rw [this]
+    cases hd : decTag tags r.page r.token with
+    | none =>
+      have := List.find?_eq_none.mp hd r hm
+      simp at this
+    | some d => rfl
+  | none =>
+    rw [hf] at hlink
+    obtain ⟨rfl, off, rfl⟩ := hlink
+    have hnf : nulFree name.cName = true := by
+      cases name with
+      | token r0 => rw [foundOf_token'] at hf; cases hf
+      | literal s => exact nulFree_cstrOf s
+    obtain ⟨e, he, rfl, hstr⟩ := hok.lit_inv
+    simp only [tagName, exactName]
+    rw [← hstr]
+    exact congrArg Name.literal (hres e he (by rw [hstr]; exact hnf))
+
 theorem encElementStartW_spec' (c : WCfg) (name : Name) (attrs : List Attr) (hasContent : Bool) (st st' : WSt)
     (hl : langOk c.lang = true) (hn : nameOver c.lang name = true) (ha : attrs.all (attrOver c.lang) = true)
     (h : encElementStartW c (some attrs) name attrs hasContent st = .ok st') :
@@ -1624,7 +1755,9 @@ theorem encElementStartW_spec' (c : WCfg) (name : Name) (attrs : List Attr) (has
         attrs.all (dtAttrOk c.lang) = true → attrs.all (iconAttrOk c.lang (some attrs)) = true →
         wfAttrs ctx st.attrPage as = true) ∧
       (∀ ctx : Ctx, RdT c st'.strtbl ctx → (c.lang.id == 1901) = false →
-        (evAttrs ctx st.attrPage as).1.map attrView = vAttrs c attrs) := by
+        (evAttrs ctx st.attrPage as).1.map attrView = vAttrs c attrs) ∧
+      (∀ ctx : Ctx, RdT c st'.strtbl ctx → (c.lang.id == 1901) = false →
+        (evAttrs ctx st.attrPage as).1 = xAttrs c attrs) := by
   unfold encElementStartW at h
   simp only at h
   cases ht : encTagW c name hasContent (!attrs.isEmpty && c.lang.attrs.isSome) st with
@@ -1649,7 +1782,7 @@ theorem encElementStartW_spec' (c : WCfg) (name : Name) (attrs : List Attr) (has
       injection h3 with h3; subst h3
       refine ⟨sw, tag, [], ⟨?_, htp, fun _ => hap, htbl, htag, (by intro o ho; cases ho), fun _ _ _ _ => rfl, fun _ => rfl,
         fun _ _ => by simp [srcAttrsView, hat, evAttrs_nil]⟩, hlink, fun _ _ _ _ _ _ => rfl,
-        fun _ _ _ => by simp [vAttrs, hat, evAttrs_nil]⟩
+        fun _ _ _ => by simp [vAttrs, hat, evAttrs_nil], fun _ _ _ => by simp [xAttrs, hat, evAttrs_nil]⟩
       simpa using hout
     | some atbl =>
       cases ha2 : encAttrsW c (some attrs) attrs st1 with
@@ -1659,12 +1792,12 @@ theorem encElementStartW_spec' (c : WCfg) (name : Name) (attrs : List Attr) (has
         have h3 : (Except.ok (if (!attrs.isEmpty && c.lang.attrs.isSome) = true then st2.emit [0x01] else st2) :
           Except Err WSt) = .ok st' := h2
         injection h3 with h3
-        obtain ⟨as, hlen, has, hasT⟩ := encAttrsW_spec' c (some attrs) atbl hat attrs st1 st2 ha ha2
+        obtain ⟨as, hlen, has, hasT, hasX⟩ := encAttrsW_spec' c (some attrs) atbl hat attrs st1 st2 ha ha2
         have hemp : as.isEmpty = attrs.isEmpty := by
           cases as <;> cases attrs <;> simp_all
         simp only [hat, Option.isSome_some, Bool.and_true] at h3 hout
-        refine ⟨sw, tag, as, ⟨?_, ?_, ?_, ?_, ?_, ?_, ?_, has.noopq, ?_⟩, hlink, ?_, ?_⟩
-        rotate_right 2
+        refine ⟨sw, tag, as, ⟨?_, ?_, ?_, ?_, ?_, ?_, ?_, has.noopq, ?_⟩, hlink, ?_, ?_, ?_⟩
+        rotate_right 3
         · have : st'.strtbl = st2.strtbl := by rw [← h3]; split <;> rfl
           rw [this, ← hap]; exact has.wfT
         · have : st'.strtbl = st2.strtbl := by rw [← h3]; split <;> rfl
@@ -1673,6 +1806,13 @@ theorem encElementStartW_spec' (c : WCfg) (name : Name) (attrs : List Attr) (has
           have := hasT ctx hr hno
           rw [hap] at this
           simp only [vAttrs, hat, Option.isSome_some, ↓reduceIte]
+          exact this
+        · have : st'.strtbl = st2.strtbl := by rw [← h3]; split <;> rfl
+          intro ctx hr hno
+          rw [this] at hr
+          have := hasX ctx hr hno
+          rw [hap] at this
+          simp only [xAttrs, hat, Option.isSome_some, ↓reduceIte]
           exact this
         · rw [← h3, hemp]
           cases hae : attrs.isEmpty with
